@@ -238,6 +238,15 @@ type mapAd struct {
 	kc   codec[string]
 }
 
+// boxVal: the untyped containers (Map, Cache) store the value 0 as a nil interface — the edge the typed twins
+// cannot express; it reads back as 0 (toInt), so the model is unaffected.
+func boxVal(v int) interface{} {
+	if v == 0 {
+		return nil
+	}
+	return v
+}
+
 func toInt(v interface{}) int {
 	if v == nil {
 		return 0
@@ -271,18 +280,18 @@ func (a *mapAd) Do(o *model.Op) (r model.Res) {
 		v, ok := a.m.Load(k)
 		r.V, r.OK = toInt(v), ok
 	case model.MStore:
-		a.m.Store(k, o.Val)
+		a.m.Store(k, boxVal(o.Val))
 	case model.MLoadOrStore:
-		v, ok := a.m.LoadOrStore(k, o.Val)
+		v, ok := a.m.LoadOrStore(k, boxVal(o.Val))
 		r.V, r.OK = toInt(v), ok
 	case model.MLoadAndStore:
-		v, ok := a.m.LoadAndStore(k, o.Val)
+		v, ok := a.m.LoadAndStore(k, boxVal(o.Val))
 		r.V, r.OK = toInt(v), ok
 	case model.MLoadOrCompute:
 		v, ok := a.m.LoadOrCompute(k, func() interface{} {
 			r.Fn = append(r.Fn, model.FnCall{})
 			fnHook(o)
-			return o.Val
+			return boxVal(o.Val)
 		})
 		r.V, r.OK = toInt(v), ok
 	case model.MCompute:
@@ -290,7 +299,7 @@ func (a *mapAd) Do(o *model.Op) (r model.Res) {
 			r.Fn = append(r.Fn, model.FnCall{Old: toInt(old), Loaded: loaded})
 			fnHook(o)
 			nv, del := model.FnResult(o.Fn, o.Val, loaded)
-			return nv, del
+			return boxVal(nv), del
 		})
 		r.V, r.OK = toInt(v), ok
 	case model.MLoadAndDelete:
@@ -528,11 +537,11 @@ func (a *cacheAd) Do(o *model.Op) (r model.Res) {
 	c := a.c
 	switch o.K {
 	case model.CSet:
-		c.Set(k, o.Val, d)
+		c.Set(k, boxVal(o.Val), d)
 	case model.CSetDefault:
-		c.SetDefault(k, o.Val)
+		c.SetDefault(k, boxVal(o.Val))
 	case model.CSetForever:
-		c.SetForever(k, o.Val)
+		c.SetForever(k, boxVal(o.Val))
 	case model.CGet:
 		v, ok := c.Get(k)
 		r.V, r.OK = toInt(v), ok
@@ -543,10 +552,10 @@ func (a *cacheAd) Do(o *model.Op) (r model.Res) {
 		v, ttl, ok := c.GetWithTTL(k)
 		r.V, r.OK, r.T = toInt(v), ok, int64(ttl)
 	case model.CGetOrSet:
-		v, ok := c.GetOrSet(k, o.Val, d)
+		v, ok := c.GetOrSet(k, boxVal(o.Val), d)
 		r.V, r.OK = toInt(v), ok
 	case model.CGetAndSet:
-		v, ok := c.GetAndSet(k, o.Val, d)
+		v, ok := c.GetAndSet(k, boxVal(o.Val), d)
 		r.V, r.OK = toInt(v), ok
 	case model.CGetAndRefresh:
 		v, ok := c.GetAndRefresh(k, d)
@@ -555,7 +564,7 @@ func (a *cacheAd) Do(o *model.Op) (r model.Res) {
 		v, ok := c.GetOrCompute(k, func() interface{} {
 			r.Fn = append(r.Fn, model.FnCall{})
 			fnHook(o)
-			return o.Val
+			return boxVal(o.Val)
 		}, d)
 		r.V, r.OK = toInt(v), ok
 	case model.CCompute:
@@ -563,7 +572,7 @@ func (a *cacheAd) Do(o *model.Op) (r model.Res) {
 			r.Fn = append(r.Fn, model.FnCall{Old: toInt(old), Loaded: loaded})
 			fnHook(o)
 			nv, del := model.FnResult(o.Fn, o.Val, loaded)
-			return nv, del
+			return boxVal(nv), del
 		}, d)
 		r.V, r.OK = toInt(v), ok
 	case model.CGetAndDelete:
